@@ -73,7 +73,7 @@ META = dict(
          "amountIn into auction custody and opens exactly one auction, of the type the whitelisting selects (nothing is seized when no type is "
          "enabled); generation-1 borrows: the sweep never touches a borrow that is safe under the applicable (e-mode aware) threshold, the effect "
          "of a sell-off is exactly SeizedV1 (one locked vault, one lend auction), and the MESSAGE's e-mode blindness is refuted by a kernel-"
-         "evaluated witness replayed on the real code (D35); external-keeper / reserve messages touch no position; liveness also for batch sizes "
+         "evaluated witness replayed on the real code (D38); external-keeper / reserve messages touch no position; liveness also for batch sizes "
          "changed between blocks (any positive sizes).",
     note="Liveness is partial by necessity (the stated two-sweeps bound is false of the code); the refutation is replayed on the real code on "
          "every run and reported under the monitor name seized_within_two_sweeps. Trusted: Lean kernel, hand-written model as far as the correspondence exercises it, Dec model (differentially tested).",
